@@ -153,6 +153,18 @@ PROPS = {
         "stub": "peers speaking the published schema: the generated gogo codec and an independent protobuf writer; no scheduler or clock involved",
         "assumptions": ["the input universe is sampled by a seeded generator through the simulated transport, not by a dedicated codec fuzzer (lower density over byte-level encodings)"],
     },
+    "C18": {
+        "level": "fault_enumeration",
+        "profiles": [{"name": "atomic-sim", "weight": 1}],
+        "rule": "each case is a sequence of 3-8 snapshot deliveries from a foreign peer (independent encoder) to the real Syncer.LoadOnce on a real LMDB with existing data, "
+                "native or shadow mode; the failure point is drawn from the enumerated list {format version 0, compat version 4-6, newer format with old compat, unknown transform, "
+                "inconsistent transform/flags, transform in native mode, DBI not creatable from a pre-v3 snapshot, malformed entry k of DBI j, private DBI, full map at DBI j, "
+                "cancellation after DBI j}; every run reports which kinds it hit (counts fault:*); a reader goroutine inspects the LMDB at every point inside the merge; "
+                "non-trivial = at least one successful merge and two kinds of delivery; distinct = distinct SHA-256 of the event log",
+        "real": "Syncer.LoadOnce, NativeIterator, strategy.Update, mainToShadow/shadowToMain, snapshot decoder, ValidateTransform, LMDB",
+        "stub": "the delivering peer (independent encoder); LoadOnce is called by the driver itself (no sync loop)",
+        "assumptions": ["the failure kinds are enumerated, their positions (DBI j, entry k, round) are sampled"],
+    },
 }
 
 ALL_PROFILES = sorted({p["name"] for c in PROPS.values() for p in c["profiles"]})
@@ -221,4 +233,8 @@ MANIFEST_TEXT = {
                     "type at every level) ->real, always compared with the generated reference codec; sizes cross all length-varint boundaries.",
             "note": "The codec is a pure function; the simulation adds seeded generation, shrinking and replay, not schedule exploration. Density over byte-level encodings is lower than a dedicated fuzzer's.",
             "technique": "seeded transport simulation between real codec, generated reference codec and an independent re-encoder (no scheduler)"},
+    "C18": {"text": "Fault enumeration over the list of failure kinds of a merge (versions 0..6, transforms, uncreatable DBI, malformed entry, private DBI, full map, cancellation) with sampled "
+                    "positions: a failed LoadOnce must leave the LMDB byte-identical with the same LastTxnID, a concurrent reader never sees a partial merge, refusals are mandatory where "
+                    "the statement says so, successful merges follow the documented meaning of format versions 1-3.",
+            "note": SIM_NOTE, "technique": "deterministic simulation with enumerated fault kinds injected into the real merge transaction + byte-exact before/after comparison"},
 }
